@@ -125,7 +125,8 @@ def instances(tier, seed):
         if batch:
             yield {"kind": "nets", "N": N, "nets": batch}
     for name, N, net in catalogue():
-        labs = enumr.relabelings(N, seed, kinds=("identity",) if tier == "quick" else ("identity", "reversed", "sparse"))
+        labs = enumr.relabelings(N, seed, kinds=("identity", "sparse") if tier == "quick" else
+                                 ("identity", "reversed", "sparse"))
         for lab in labs:
             net2 = [(k, [lab[v] for v in vs], [tuple(sorted((lab[a], lab[b]))) for a, b in es]) for k, vs, es in net]
             yield {"kind": "nets", "N": N, "nets": [net2], "name": name, "verts": sorted(lab)}
